@@ -32,9 +32,10 @@ META = {
 }
 RULE = (
     "all (operator, form, hot/cold pattern, tuple of source timelines): a source timeline = <=N on_next over a 2-value "
-    "alphabet at slots 10,20,.. (optionally shifted by 5, hot ones also by -15 so that a prefix precedes subscription) "
-    "followed (one slot later, or in the same instant as the last element) by completion, error or nothing; non-trivial = at least two sources delivered a notification to the operator "
-    "(one for single-source tuples) and the reference output is not empty; distinct = the whole case tuple"
+    "alphabet at slots 10,20,.. (optionally shifted by 5; hot ones also by -15 so that a prefix precedes subscription; cold ones "
+    "also delivered entirely inside subscribe()) "
+    "followed (one slot later, or in the same instant as the last element) by completion, error or nothing; non-trivial = at least two sources (one for single-source "
+    "tuples) notify at or after the subscription instant and the reference output is not empty; distinct = the whole case tuple"
 )
 BUDGET = {"quick": 150.0, "thorough": 1500.0}
 
@@ -142,11 +143,12 @@ MODELS = {"zip": m_zip, "combine_latest": m_combine_latest, "with_latest_from": 
 
 
 def visible(hot, tl):
-    """Events the operator can see: (abs time, kind, value-or-error-marker) of one source."""
+    """Events the operator can see: (abs time, kind, value-or-error-marker) of one source.  Offset None (cold only) =
+    delivered synchronously inside subscribe, i.e. in the subscription instant."""
     out = []
     for (t, k, v) in tl:
-        at = SUB + t
-        if at > SUB:
+        at = SUB if t is None else SUB + t
+        if at > SUB or (t is None and not hot):
             out.append((at, k, v))
         if k in "EC":
             break
@@ -160,7 +162,7 @@ def admissible(op, sources):
     n = len(sources)
     evs = [visible(h, tl) for (h, tl) in sources]
     instants = sorted({e[0] for s in evs for e in s})
-    # configuration: (state, outs, lo, hi, alive) ; lo[i]/hi[i] None = still open
+    # configuration: (state, outs, lo, hi); lo[i]/hi[i] None = subscription of source i still open
     start = (None, (), (None,) * n, (None,) * n)
     frontier = {start}
     for t in instants:
@@ -286,7 +288,9 @@ def judge(op, form, sources):
     # subscription log
     closes = []
     for i, s in enumerate(srcs):
-        if len(s.subs) != 1 or s.subs[0]["sub_time"] != SUB:
+        if not s.subs:
+            closes.append(SUB)  # never subscribed = released from the start (only admissible if it had to be released by then)
+        elif len(s.subs) != 1 or s.subs[0]["sub_time"] != SUB:
             problems.append(("subscribe", f"source {i} subscribed {[x['sub_time'] for x in s.subs]} (expected once at {SUB})"))
             closes.append(None)
         else:
@@ -307,7 +311,7 @@ def judge(op, form, sources):
         else:
             want = " | ".join(sorted({" ".join(f"s{i}:[{a:g},{b:g}]" for i, (a, b) in enumerate(zip(m[1], m[2]))) for m in same_out}))
             # which side is wrong: closed too late (not released) or too early
-            late = any(all(c is not None and c >= m[1][i] for i, c in enumerate(closes)) for m in same_out)
+            late = any(all(c is None or c >= m[1][i] for i, c in enumerate(closes)) for m in same_out)  # None = never closed
             cls = "not-released" if late else "released-early"
             problems.append((cls, f"source subscriptions closed at {closes}, expected within {want}; output {show_outs(outs)}"))
     delivered = sum(1 for (h, tl) in sources if visible(h, tl))
@@ -344,46 +348,51 @@ def shapes(N, nvals, sit, terminals=("C", "E", None)):
 
 def concrete(shape, shift, alpha):
     vals, term, sit = shape
+    if shift == "sync":  # everything delivered inside subscribe()
+        return [(None, "N", alpha[v]) for v in vals] + ([(None, term, "E" if term == "E" else None)] if term is not None else [])
     tl = [(10 * (k + 1) + shift, "N", alpha[v]) for k, v in enumerate(vals)]
     if term is not None:
         tl.append((10 * (len(vals) + (0 if sit else 1)) + shift, term, "E" if term == "E" else None))
     return tl
 
 
-def source_menu(N, nvals, sit, pos, alphas, hot_modes):
+def source_menu(N, nvals, sit, pos, alphas, hot_modes, shiftpol="full"):
     """All (hot, timeline) choices for the source at position `pos`."""
     out = []
     for hot in hot_modes:
-        shifts = (0, 5, -15) if hot else (0, 5)
+        shifts = (0, 5) if shiftpol == "grid" else ((0, 5, -15) if hot else (0, 5, "sync"))
         for sh in shapes(N, nvals, sit):
             for shift in shifts:
-                if shift == -15 and not sh[0] and sh[1] is None:
+                if shift != 0 and sh[2]:
+                    continue  # same-instant terminal variants only on the base grid
+                if shift in (-15, "sync") and not sh[0] and sh[1] is None:
                     continue  # identical to the unshifted silent source
                 out.append((hot, concrete(sh, shift, alphas[pos])))
     return out
 
 
 def plan(tier):
-    """[(operators, arities, N elements, values, same-instant terminal variants, hot/cold pattern policy)]"""
+    """[(operators, arities, N elements, values, same-instant terminal variants, hot/cold pattern policy, shift policy)]
+    shift policy: full = cold {0,+5,sync} / hot {0,+5,-15}; grid = {0,+5} only."""
     if tier == "quick":
         return [
-            (OPS, (1, 2), 2, 2, True, "all"),
-            (OPS, (3,), 1, 1, False, "uniform"),
+            (OPS, (1, 2), 2, 2, True, "all", "full"),
+            (OPS, (3,), 1, 1, False, "uniform", "full"),
         ]
     return [
-        (OPS, (1, 2), 2, 2, True, "all"),
-        (OPS, (3,), 2, 2, False, "uniform"),
-        (OPS, (3,), 1, 2, True, "all"),
-        (("zip", "combine_latest"), (4,), 1, 2, False, "uniform"),
+        (OPS, (1, 2), 2, 2, True, "all", "full"),
+        (OPS, (3,), 2, 2, False, "uniform", "grid"),
+        (OPS, (3,), 1, 2, True, "all", "full"),
+        (("zip", "combine_latest"), (4,), 1, 1, False, "uniform", "full"),
     ]
 
 
 def all_cases(tier, seed):
     alphas = value_alphabets(seed)
-    for (ops_, arities, N, nvals, sit, hotpol) in plan(tier):
+    for (ops_, arities, N, nvals, sit, hotpol, shiftpol) in plan(tier):
         for n in arities:
-            menus_cold = [source_menu(N, nvals, sit, p, alphas, (False,)) for p in range(n)]
-            menus_hot = [source_menu(N, nvals, sit, p, alphas, (True,)) for p in range(n)]
+            menus_cold = [source_menu(N, nvals, sit, p, alphas, (False,), shiftpol) for p in range(n)]
+            menus_hot = [source_menu(N, nvals, sit, p, alphas, (True,), shiftpol) for p in range(n)]
             if hotpol == "all":
                 patterns = list(itertools.product((False, True), repeat=n))
             else:
@@ -418,7 +427,7 @@ def shard(part: core.Part, shard_i, nshards, tier, seed, deadline):
 
 def describe(sources):
     def one(h, tl):
-        return ("hot" if h else "cold") + "[" + " ".join(f"{t}:{'|' if k == 'C' else ('#' if k == 'E' else repr(v))}" for (t, k, v) in tl) + "]"
+        return ("hot" if h else "cold") + "[" + " ".join(f"{'sync' if t is None else t}:{'|' if k == 'C' else ('#' if k == 'E' else repr(v))}" for (t, k, v) in tl) + "]"
 
     return ", ".join(one(h, tl) for (h, tl) in sources)
 
@@ -427,10 +436,10 @@ def run(ctx: core.Ctx):
     ctx.bounds = {
         "plan": [
             {"operators": list(o), "arities": list(a), "max_elements_per_source": N, "values_per_source": nv,
-             "terminal_in_same_instant_as_last_element": sit, "hot_cold_patterns": hp}
-            for (o, a, N, nv, sit, hp) in plan(ctx.tier)
+             "terminal_in_same_instant_as_last_element": sit, "hot_cold_patterns": hp, "shifts": sp}
+            for (o, a, N, nv, sit, hp, sp) in plan(ctx.tier)
         ],
-        "shifts": "cold 0,+5; hot 0,+5,-15",
+        "shift_policies": "full = cold 0,+5,sync(all inside subscribe) / hot 0,+5,-15; grid = 0,+5",
         "forms": list(FORMS),
     }
     ctx.assumptions = [
